@@ -630,9 +630,25 @@ def drv_b64(case):
         s3 = Q1.to_b64()
         out.append({"op": "b64poly", "p_before": pE, "p_after": proj.cfgpoly(pnd.ge_polyhedron_config.from_b64(s3), tok),
                     "p_again": proj.cfgpoly(pnd.ge_polyhedron_config.from_b64(Q1.to_b64()), tok), "sel_before": [], "sel_after": [], "edited": True})
-        # the same polyhedron stored with another integer dtype keeps that dtype
         import numpy
         M = numpy.asarray(P)
+        # the same matrix held column-major (as numpy gives it after a transpose), and labels that are plain numbers: integer column
+        # ids 0, 1, 2, ... with their own bounds, integer row labels
+        if M.ndim == 2 and M.shape[0] >= 1 and M.shape[1] >= 2:
+            variants = [("F", numpy.asfortranarray(M), list(P.variables), list(P.index)),
+                        ("T", numpy.ascontiguousarray(M.T).T, list(P.variables), list(P.index)),
+                        ("num", M.copy(), [puan.variable.support_vector_variable()] + [puan.variable(j, (0, 3) if j % 2 else (-1, 1)) for j in range(1, M.shape[1])],
+                         list(range(M.shape[0])))]
+            for tag, arr_, vs_, ix_ in variants:
+                try:
+                    Pv = pnd.ge_polyhedron_config(arr_, default_prio_vector=numpy.array(P.default_prio_vector), variables=vs_, index=ix_)
+                    sv_ = Pv.to_b64()
+                    out.append({"op": "b64poly", "p_before": proj.cfgpoly(Pv, tok), "p_after": proj.cfgpoly(pnd.ge_polyhedron_config.from_b64(sv_), tok),
+                                "p_again": proj.cfgpoly(pnd.ge_polyhedron_config.from_b64(sv_), tok), "sel_before": [], "sel_after": [], "variant": tag})
+                except (KeyboardInterrupt, SystemExit): raise
+                except BaseException as ex:
+                    out.append({"op": "exc", "exc": type(ex).__name__, "msg": str(ex)[:150], "where": "b64 round trip of a configured polyhedron (%s)" % tag})
+        # the same polyhedron stored with another integer dtype keeps that dtype
         dts = [numpy.int32, numpy.int16, numpy.int8]
         for dt in dts[len(pP["cols"]) % 3:] + dts[:len(pP["cols"]) % 3]:
             if M.size and (M.min() < numpy.iinfo(dt).min or M.max() > numpy.iinfo(dt).max): continue
@@ -1038,6 +1054,11 @@ def drv_bridge(case):
         dt = [numpy.int64, numpy.int32, numpy.int16][len(vs) % 3]
         P = pnd.ge_polyhedron(numpy.array(mat, dtype=dt), variables=vs, index=[puan.variable("r1"), puan.variable("r2")], dtype=dt)
         _ = P.A, P.b                      # read once, edit a coefficient in place, read again: A and b must follow the matrix
+        # arrays derived from a polyhedron whose index sets have been asked: they partition THEIR OWN columns
+        _ = P.boolean_variable_indices, P.integer_variable_indices
+        for X, xv in ((P.A, pv[1:]), (pnd.ge_polyhedron(P, variables=vs), pv), (P.to_linalg()[0], pv[1:]), (pnd.integer_ndarray(P[:, 1:], variables=vs[1:]), pv[1:])):
+            out.append({"op": "partition", "vars": xv, "bool_idx": [proj.I(x) for x in numpy.asarray(X.boolean_variable_indices).tolist()],
+                        "int_idx": [proj.I(x) for x in numpy.asarray(X.integer_variable_indices).tolist()], "spelling": "derived"})
         P[0, 1] += 1
         mat = [list(r) for r in mat]; mat[0][1] += 1
         A, b = P.A, P.b
